@@ -778,13 +778,9 @@ def runOp (d : DSt) (ts : List String) : DSt × String :=
                 let (st', ret) ← scrollWindow (oracleOf d.mode) st id dd rr
                 pure (st', ret, self)
               else
-                let (st', ret) ← scrollWithChildren (oracleOf d.mode) st id dd rr
-                let w ← get st'.tree id
-                let tr ← w.children.foldlM (fun tr ch => do
-                  let cw ← get tr ch
-                  let (tr, _) ← setGeometry tr ch { cw.rect with top := cw.rect.top - dd, left := cw.rect.left - rr }
-                  pure tr) st'.tree
-                pure ({ st' with tree := tr }, ret, self)
+                -- the compound step of `Props.C01.scrollch_step_full`: the call, then the application moves the children
+                let (st', ret) ← scrollWithChildrenMoved (oracleOf d.mode) st id dd rr
+                pure (st', ret, self)
             match r with
             | .ub w => fail d w
             | .ok (st', ret, self) =>
